@@ -42,37 +42,6 @@ mod verif_c14_load {
         }
     }
 
-    /// Every register of the machine except GDTR (and the scratch/log fields).
-    fn same_except_gdtr(a: &Machine, b: &Machine) -> bool {
-        a.cr0 == b.cr0
-            && a.cr2 == b.cr2
-            && a.cr3 == b.cr3
-            && a.cr4 == b.cr4
-            && a.dr0 == b.dr0
-            && a.dr1 == b.dr1
-            && a.dr2 == b.dr2
-            && a.dr3 == b.dr3
-            && a.dr6 == b.dr6
-            && a.dr7 == b.dr7
-            && a.xcr0 == b.xcr0
-            && a.msr_index == b.msr_index
-            && a.msr_value == b.msr_value
-            && a.rflags == b.rflags
-            && a.cs == b.cs
-            && a.ss == b.ss
-            && a.ds == b.ds
-            && a.es == b.es
-            && a.fs == b.fs
-            && a.gs == b.gs
-            && a.fs_base == b.fs_base
-            && a.gs_base == b.gs_base
-            && a.kernel_gs_base == b.kernel_gs_base
-            && a.mxcsr == b.mxcsr
-            && a.idtr_base == b.idtr_base
-            && a.idtr_limit == b.idtr_limit
-            && a.tr == b.tr
-    }
-
     /// The postcondition, shared by the harnesses below.
     macro_rules! check_loaded {
         ($gdt:expr, $used:expr, $before:expr) => {{
@@ -100,7 +69,7 @@ mod verif_c14_load {
                 "C14.Gdt_load.gdtr_updated_nothing_else: GDTR holds base and limit"
             );
             assert!(
-                same_except_gdtr(m, &$before),
+                m.regs_same_except(&$before, verif_hw::field::GDTR),
                 "C14.Gdt_load.gdtr_updated_nothing_else: no other register changed"
             );
         }};
